@@ -8,18 +8,29 @@ ACTIONS = ["PushCS", "PushResolve", "PopCS", "UnblockCS", "UnblockResolve", "Des
 
 def run(ctx):
     rp = vlib.compile_harness(vlib.VERIF + "/harness/queue_replay.cpp", "queue_replay", sanitize=not ctx.quick)
-    deep = {} if ctx.quick else {"MaxPush": 5, "MaxPop": 5, "MaxUnblock": 3}
+    deep = {}
     for void in (False, True):
-        cfg = "Queue_seq_void.cfg" if void else "Queue_seq.cfg"
+        cfg = ("Queue_seq_void" if void else "Queue_seq") + ("" if ctx.quick else "_deep") + ".cfg"
 
         def hdr(k, st0, void=void):
             return {"void": void, "mode": "coro" if k % 2 else "poll"}
         graph_replay(ctx, "Queue", "Queue", cfg, "seq_void" if void else "seq", rp, PROJ, header_fn=hdr,
                      merge_re=r"(PushResolve|UnblockResolve)$", must_take=ACTIONS,
                      constants=deep or None, extra_random=200 if ctx.quick else 2000)
-    # all interleavings of three client threads at critical-section grain (design level)
-    res = ctx.tlc("Queue", "Queue", vlib.VERIF + "/spec/Queue/Queue_conc.cfg", "conc")
-    if res.violation:
-        ctx.tlc_violation(res, "Queue:Queue_conc.cfg")
-    ctx.assume("interleavings of several client threads are decided on the specification (critical-section grain); "
-               "the implementation is bound to it by single-threaded replays of every specification edge")
+    # all interleavings of client threads at critical-section grain, replayed on real threads: the queue's
+    # std::mutex is virtual (interposed pthread layer), so the critical section and the promise resolution
+    # that follows the unlock are separately scheduled
+    rpc = vlib.compile_harness(vlib.VERIF + "/harness/queue_conc_replay.cpp", "queue_conc_replay",
+                               extra_flags=["-rdynamic"], sanitize=False)
+
+    def cproj(st):
+        d = vlib.project(st, PROJ)
+        d["pend"] = {t: ("idle" if p == "idle" else "resolve") for t, p in st["pc"].items()}
+        return d
+    threads = ["t1", "t2", "t3"]
+    graph_replay(ctx, "Queue", "Queue", "Queue_conc.cfg" if ctx.quick else "Queue_conc_deep.cfg", "conc", rpc, cproj,
+                 header_fn=lambda k, st0: {"threads": threads}, must_take=ACTIONS,
+                 max_paths=1500 if ctx.quick else None,
+                 constants=None)
+    ctx.assume("multi-thread replay at lock grain: atomic operations are not scheduling points (the promise/future protocol "
+               "itself is decided by C01/C02)")
